@@ -308,7 +308,7 @@ Definition step (c : cfg) (s : st) (id : Z) (argv : list str) : st * list str :=
   | Some r =>
     if beq ch x44 || beq ch x54 then ({| reqs := remove id (reqs s); next := next s |}, [])
     else if beq ch x21 (* ! timeout *) then
-      if timer r then
+      if timer r && match arg 1 argv with Some a => seq_eq a (S_ "timeout") | None => false end then
         let r' := {| cid := cid r; ser := ser r; addr := addr r; port := port r;
           f_host := f_host r; f_ident := f_ident r; f_nick := f_nick r; f_user := f_user r; f_pass := f_pass r; f_empty := f_empty r; f_tout := true; f_sdone := f_sdone r;
           holds := holds r; soft := 0%Z; host := host r; cliu := cliu r; authu := authu r; nick := nick r; real := real r; acct := acct r;
